@@ -1,5 +1,6 @@
 _E1 = dict(libs=["vrt", "vsync", "vtime", "vctx"], gomaxprocs=1,
-           instrument={"files": ["internal/dag/scheduler/scheduler.go", "internal/dag/scheduler/node.go", "internal/dag/scheduler/graph.go"]},
+           instrument={"files": ["internal/dag/scheduler/scheduler.go", "internal/dag/scheduler/node.go", "internal/dag/scheduler/graph.go", "internal/agent/agent.go"]},
+           inpkg={"internal/agent": ["e1/zz_verif_e1_agent.go"], "internal/dag/scheduler": ["e1/zz_verif_e1_sched.go"]},
            shards={"quick": "ncpu", "thorough": "ncpu"})
 CHECK = {
     "level": "model_checking",
